@@ -140,8 +140,24 @@ static inline void run_vec(const Field &F, const KTab &T, const KEntry &k, const
             std::string why;
             post(F, k.spec, av[j], bv[j], o1[j], o2[j], &why);
             viol++;
-            rep().viol(fmt("%s.wrong.%s.w%u", k.lanes == 8 ? "C11" : "C02", k.name, F.W), casestr(F, k, side, j, av[j], bv[j]),
-                       fmt("got o1=%s o2=%s; %s", hex(o1[j]).c_str(), hex(o2[j]).c_str(), why.c_str()));
+            // does the failing pair fail on its own (the same pair in every lane)?  If not, the lane depends on what the OTHER
+            // lanes hold: the case is then the whole register, and the replay loads the whole register
+            alignas(64) u64 pa[8], pb[8], p1[8] = {0}, p2[8] = {0};
+            for (int t = 0; t < k.lanes; t++) { pa[t] = sh ? (av[j] ^ F.MSB) : av[j]; pb[t] = bv[j]; }
+            k.fn(pa, pb, p1, p2);
+            bool alone = !post(F, k.spec, av[j], bv[j], p1[j], p2[j], nullptr);
+            if (alone)
+                rep().viol(fmt("%s.wrong.%s.w%u", k.lanes == 8 ? "C11" : "C02", k.name, F.W), casestr(F, k, side, j, av[j], bv[j]),
+                           fmt("got o1=%s o2=%s; %s", hex(o1[j]).c_str(), hex(o2[j]).c_str(), why.c_str()));
+            else
+            {
+                std::string la, lb;
+                for (int t = 0; t < k.lanes; t++) { la += (t ? "," : "") + hex(ok[t] ? av[t] : 0); lb += (t ? "," : "") + hex(ok[t] ? bv[t] : 0); }
+                rep().viol(fmt("%s.wrong.%s.cross-lane.w%u", k.lanes == 8 ? "C11" : "C02", k.name, F.W), fmt("w=%u kernel=%s side=%s av=%s bv=%s", F.W, k.name, side, la.c_str(), lb.c_str()),
+                           fmt("lane %d (a=%s b=%s) got o1=%s o2=%s; %s -- the same pair in every lane is computed correctly: the lane's result depends on the other lanes", j, hex(av[j]).c_str(), hex(bv[j]).c_str(), hex(o1[j]).c_str(), hex(o2[j]).c_str(), why.c_str()));
+                if (sa) T.sig_reset();
+                return;
+            }
         }
     }
 }
@@ -443,6 +459,11 @@ static int run_one(const Args &args)
         if (cs(m, "kernel") != T->e[i].name) continue;
         u64 av[8], bv[8];
         for (int j = 0; j < 8; j++) { av[j] = cu(m, "a"); bv[j] = cu(m, "b"); }
+        if (m.count("av"))
+        {
+            std::vector<u64> la = culist(m, "av"), lb = culist(m, "bv");
+            for (int j = 0; j < 8; j++) { av[j] = j < (int)la.size() ? la[j] : 0; bv[j] = j < (int)lb.size() ? lb[j] : 0; }
+        }
         long long e = 0, v = 0;
 #if defined(HAVE_NAT) && defined(HAVE_MDL)
         if (side == "both")
